@@ -382,6 +382,9 @@ func TestVerifC11P2P(t *testing.T) {
 		}
 	}
 	for i := range todo {
+		if len(out.Violations) >= 6 {
+			break // enough concrete replays; failing ceremonies of a faulty tree can take their whole timeout
+		}
 		c := &todo[i]
 		c.ID = i
 		res, err := c11pRun(t, c)
